@@ -9,6 +9,7 @@ mod http_store;
 mod ws_store;
 mod validator;
 mod accesslist;
+mod udp_sys;
 
 use crate::core::*;
 use std::collections::BTreeMap;
@@ -43,6 +44,7 @@ macro_rules! dispatch {
             "ws_store" => $f::<ws_store::WsStore>($($args),*),
             "validator" => $f::<validator::Validator>($($args),*),
             "accesslist" => $f::<accesslist::AccessListHarness>($($args),*),
+            "udp_sys" => $f::<udp_sys::UdpSys>($($args),*),
             other => {
                 eprintln!("HARNESS-ERROR: unknown harness {:?}", other);
                 std::process::exit(2);
